@@ -103,6 +103,8 @@ def check_props(cid):
     text = _strip_comments(src.read_text())
     theorems = re.findall(r"^\s*(?:Theorem|Lemma|Corollary)\s+(\w+)", text, re.M)
     printed = re.findall(r"^\s*Print Assumptions\s+(\w+)\s*\.", text, re.M)
+    # non-vacuity Examples that are followed by Print Assumptions are obligations like the theorems
+    theorems += [e for e in re.findall(r"^\s*Example\s+(\w+)", text, re.M) if e in printed and e not in theorems]
     p = subprocess.run(
         ["timeout", "600", "coqc", "-Q", ".", "NSpa", "-w", "none",
          str(src), "-o", str(outdir / f"{cid}.vo")],
